@@ -286,6 +286,56 @@ func TestC12(t *testing.T) {
 		run("seq", frames, tags)
 	}
 
+	// ---- "-bin" request metadata: values of every length mod 4 (0..9 characters), valid and invalid alphabet, padded and
+	// not, lower- and upper-case key, on a unary request and on a stream opener; then more traffic and the probe
+	binVals := []string{"", "A", "QQ", "QUI", "QUJD", "QUJDR", "QUJDRA", "QUJDREU", "QUJDREVG", "QUJDREVGR", "QQ==", "QUI=", "QUJDRA==",
+		"QUJDREU=", "A===", "=", "==", "====", "!", "!!", "%%%", "!!!!", "abc*", "ab*de", "a b c", "QUJD\n", "QQ=", "QUI==", "-_-_", "-_-_-", "+/+/", "+/+/+"}
+	for _, v := range binVals {
+		for _, key := range []string{"bin:", "BIN:"} {
+			for _, stream := range []bool{false, true} {
+				f := &FrameSpec{Id: 3, Hdr: key + v, Method: mUnary, Src: "src", Dst: "dst", Body: i64(820)}
+				if stream {
+					f = &FrameSpec{Id: 1, Hdr: key + v, Method: mBidi, Src: "src", Dst: "dst"}
+				}
+				frames := []*FrameSpec{f, {Id: 1, Hdr: "ok:0", Method: mBidi, Src: "src", Dst: "dst", Body: i64(821)},
+					{Id: 1, Hdr: "ok:0", Method: mBidi, Src: "src", Dst: "dst", Status: &[2]int64{0, 0}, Trl: "ok:0"}, svProbe(910)}
+				run("binmd", frames, []string{"binmd", fmt.Sprintf("len%%4=%d", len(v)%4), fmt.Sprintf("stream=%v", stream)})
+			}
+		}
+	}
+
+	// ---- long sequences of pairwise DISTINCT ignorable envelopes (distinct unparsable / unknown methods, unknown services,
+	// foreign destinations, mixed), then the probe
+	distinctN := []int{129, 257}
+	if thorough() {
+		distinctN = append(distinctN, 1025)
+	}
+	for _, n := range distinctN {
+		for _, kind := range []string{"method", "service", "dst", "badmethod", "mixed"} {
+			var frames []*FrameSpec
+			for i := 0; i < n; i++ {
+				k := kind
+				if kind == "mixed" {
+					k = []string{"method", "service", "dst", "badmethod"}[i%4]
+				}
+				f := &FrameSpec{Id: uint64(1000 + i), Hdr: "ok:0", Method: mUnary, Src: "src", Dst: "dst", Body: i64(int64(830 + i%50))}
+				switch k {
+				case "method":
+					f.Method = fmt.Sprintf("/verif.Echo/Nope%d", i)
+				case "service":
+					f.Method = fmt.Sprintf("/svc%d.Other/Unary", i)
+				case "dst":
+					f.Dst = fmt.Sprintf("elsewhere-%d", i)
+				case "badmethod":
+					f.Method = fmt.Sprintf("nomethod%d", i)
+				}
+				frames = append(frames, f)
+			}
+			frames = append(frames, svProbe(911))
+			run("distinct", frames, []string{"distinct-ignorable", fmt.Sprintf("n=%d", n), "kind:" + kind})
+		}
+	}
+
 	// ---- several sources on one connection: the registry is ONE id space per connection, whatever the source
 	// names are (also names and ids whose concatenations coincide: "c-1"+"12" = "c-11"+"2" = "c-"+"112")
 	type sid struct {
